@@ -198,7 +198,8 @@ Verdict(o) == IF o.k \in {"true", "pass"} THEN <<TRUE>> ELSE IF o.k = "vec" THEN
 Out(k, exc, v) == [k |-> k, exc |-> exc, v |-> v]
 \* unyt_array(x): a list of quantities is converted to its first element's unit; bare input is dimensionless
 CoerceUnit(c, us) == EU(c, us[1])
-\* atolRef/rtolMode = "a"/"raw": today's code; "d"/"phys": the documented reading (the proposed repairs) - TOk accepts each
+\* atolRef/rtolMode = "d"/"phys": the documented reading, today's code (fix: commits 59e7f1d, 9551892); "a"/"raw": the code before
+\* those repairs (bare atol in actual's unit, rt.value) - TOk accepts each, so the check can also be pointed at an older tree
 TUnytR(c, atolRef, rtolMode) ==
   LET ua == CoerceUnit(c, c.au)  ud == CoerceUnit(c, c.du)
       bad == Out(URefuseK(c), IF c.helper = "allclose_units" THEN "" ELSE "AssertionError", <<>>) IN
@@ -213,7 +214,7 @@ TUnytR(c, atolRef, rtolMode) ==
                         y == ToUnit(El(c.d, i), EU(c, El(c.du, i)), ua) IN
                     QLe(RAbs(QSub(x, y)), QAdd(atol, QMul(r, RAbs(y))))] IN
        IF AllTrue(vec) THEN Out(UAcceptK(c), "", <<>>) ELSE bad
-TUnyt(c) == TUnytR(c, "a", "raw")
+TUnyt(c) == TUnytR(c, "d", "phys")
 
 \* getattr(x, "units", NULL_UNIT): only unyt objects have the attribute; NULL_UNIT == dimensionless
 CodeUnit(c, k, us) == IF k \in {"q", "arr"} THEN us[1] ELSE "NULL"
